@@ -169,6 +169,12 @@ pub fn debug_cmd(args: &[String]) {
                 let _ = MetaCfg::linear();
             }
         }
+        Some("c18") => {
+            // dbg c18 <file.cairo> [2023_01]: all C18 round trips of the compiled file.
+            let src = std::fs::read_to_string(&args[1]).unwrap();
+            let settings = if args.get(2).map(|s| s.as_str()) == Some("2023_01") { crate::core::cairo::SETTINGS_2023_01 } else { crate::core::cairo::SETTINGS_2024_07 };
+            println!("{:?}", c18::debug_file(&src, settings));
+        }
         Some("bl") => {
             // dbg bl: every operation x shape of gens/builtin_loops compiles, runs and passes the gas check.
             use crate::gens::builtin_loops as bl;
